@@ -682,33 +682,43 @@ Proof.
 Qed.
 
 (* what next() skips because the peer abandoned group l: exactly the leading run of that group
-   (a lone packet of our own is sent regardless) *)
+   (a lone packet of our own is sent regardless; a picked packet of our own carrying key material is
+   sent alone and leaves the abandoned group pending for the call after it) *)
 Lemma abandon_spec i l q :
   abandon i l q =
   match q with
-  | [n] => if is_own i n then q else if 0 <? l then dropwhile (in_group l) q else q
-  | _ => if 0 <? l then dropwhile (in_group l) q else q
+  | [] => []
+  | n :: r =>
+    if is_nil r && is_own i n then q
+    else if f_crypt (p_fl n) && is_own i n then n :: abandon i l r
+    else if 0 <? l then dropwhile (in_group l) q else q
   end.
 Proof.
-  unfold abandon. destruct q as [|n r]; [destruct (0 <? l); reflexivity|].
-  assert (G : (if 0 <? l then match skip_group l n r with (n1, q1) => if f_group (p_fl n1) =? l then [] else n1 :: q1 end
-               else n :: r) = if 0 <? l then dropwhile (in_group l) (n :: r) else n :: r).
-  { destruct (0 <? l); [|reflexivity]. destruct (skip_group l n r) as [n1 q1] eqn:E.
-    apply skip_group_spec in E. fold (in_group l n1). destruct E as [[E1 [E2 E3]]|[E1 E2]]; rewrite E1, ?E3, ?E2; reflexivity. }
-  destruct r as [|p r'].
-  - cbn [is_nil andb]. destruct (is_own i n); [reflexivity|exact G].
-  - cbn [is_nil andb]. exact G.
+  destruct q as [|n r]; [reflexivity|]. cbn [abandon].
+  destruct (is_nil r && is_own i n); [reflexivity|].
+  destruct (f_crypt (p_fl n) && is_own i n); [reflexivity|].
+  destruct (0 <? l); [|reflexivity]. destruct (skip_group l n r) as [n1 q1] eqn:E.
+  apply skip_group_spec in E. fold (in_group l n1).
+  destruct E as [[E1 [E2 E3]]|[E1 E2]]; rewrite E1, ?E3, ?E2; reflexivity.
 Qed.
 
 Lemma abandon_zero i q : abandon i 0 q = q.
-Proof. rewrite abandon_spec. destruct q as [|n [|p r]]; try reflexivity. destruct (is_own i n); reflexivity. Qed.
-
-Lemma abandon_suffix i l q : exists dropped, q = dropped ++ abandon i l q.
 Proof.
-  rewrite abandon_spec.
-  assert (G : exists d, q = d ++ (if 0 <? l then dropwhile (in_group l) q else q)).
-  { destruct (0 <? l); [exists (takewhile (in_group l) q); apply take_drop_while|exists []; reflexivity]. }
-  destruct q as [|n [|p r]]; try exact G. destruct (is_own i n); [exists []; reflexivity|exact G].
+  induction q as [|n r IH]; [reflexivity|]. rewrite abandon_spec.
+  destruct (is_nil r && is_own i n); [reflexivity|].
+  destruct (f_crypt (p_fl n) && is_own i n); [rewrite IH; reflexivity|reflexivity].
+Qed.
+
+Lemma Forall_dropwhile {A} (P : A -> Prop) f l : Forall P l -> Forall P (dropwhile f l).
+Proof. intro H. rewrite (take_drop_while f l) in H. apply Forall_app in H. apply H. Qed.
+
+Lemma abandon_Forall (P : packet -> Prop) i l q : Forall P q -> Forall P (abandon i l q).
+Proof.
+  induction q as [|n r IH]; intro H; [constructor|]. rewrite abandon_spec.
+  destruct (is_nil r && is_own i n); [exact H|].
+  destruct (f_crypt (p_fl n) && is_own i n).
+  - inversion H; subst. constructor; [assumption|apply IH; assumption].
+  - destruct (0 <? l); [apply Forall_dropwhile; exact H|exact H].
 Qed.
 
 Lemma keepalive_own i t : is_own i (keepalive i t) = true.
@@ -739,7 +749,11 @@ Lemma session_next_cases c st tx st' :
   (exists n0 q dropped n1' n1 q1,
      pending st = n0 :: q /\ pending st = dropped ++ n1' :: q1 /\
      abandon (c_own c) (s_last st) (pending st) = n1' :: q1 /\ (n1 = n1' \/ n1 = retag c n1') /\
-     finish c n1 q1 (p_tags (retag c n0)) = (Some tx, st')).
+     finish c n1 q1 (p_tags (retag c n0)) = (Some tx, st'))
+  \/
+  (exists n0 q, pending st = n0 :: q /\ q <> [] /\
+     f_crypt (p_fl n0) && is_own (c_own c) n0 = true /\
+     tx = TSingle (norm (c_own c) (retag c n0)) /\ st' = mkS q None (s_last st)).
 Proof.
   intro H. unfold session_next in H.
   destruct (pick_spec c st) as [[Hp Hk]|[n0 [q [Hp Hk]]]]; rewrite Hk in H.
@@ -754,11 +768,16 @@ Proof.
     + inversion H; subst. apply andb_prop in E1. destruct E1 as [Eq Eo].
       destruct q; [|discriminate]. left. eexists. split; [reflexivity|]. split; [reflexivity|].
       right. left. exists n0. repeat split; assumption.
-    + assert (Hab : abandon (c_own c) (s_last st) (n0 :: q) =
+    + rewrite p_fl_retag in H.
+      destruct (f_crypt (p_fl n0) && is_own (c_own c) n0) eqn:EC.
+      { inversion H; subst. right. right. exists n0, q. split; [assumption|].
+        split; [|split; [exact EC|split; reflexivity]].
+        intro Hq. subst q. apply andb_prop in EC. destruct EC as [_ EC]. rewrite EC in E1. discriminate. }
+      assert (Hab : abandon (c_own c) (s_last st) (n0 :: q) =
                     if 0 <? s_last st then match skip_group (s_last st) n0 q with
                                            | (n1, q1) => if f_group (p_fl n1) =? s_last st then [] else n1 :: q1 end
                     else n0 :: q).
-      { unfold abandon. rewrite E1. reflexivity. }
+      { cbn [abandon]. rewrite E1, EC. reflexivity. }
       rewrite Hp. rewrite Hab.
       destruct (0 <? s_last st) eqn:EL.
       * destruct (skip_group (s_last st) (retag c n0) q) as [n1 q1] eqn:ES.
@@ -771,10 +790,10 @@ Proof.
         destruct Hsp as [[G1 [G2 G3]]|[G1 G2]]; rewrite G1 in H |- *.
         -- inversion H; subst. left. eexists. split; [reflexivity|]. split; [reflexivity|].
            right. right. exists n0, q. repeat split; reflexivity.
-        -- right. exists n0, q, (takewhile (in_group (s_last st)) (n0 :: q)), n1', n1, q1.
+        -- right. left. exists n0, q, (takewhile (in_group (s_last st)) (n0 :: q)), n1', n1, q1.
            split; [reflexivity|]. split; [rewrite <- G2; apply take_drop_while|].
            split; [reflexivity|]. split; [exact Hrel|exact H].
-      * right. exists n0, q, [], n0, (retag c n0), q.
+      * right. left. exists n0, q, [], n0, (retag c n0), q.
         split; [reflexivity|]. split; [reflexivity|]. split; [reflexivity|].
         split; [right; reflexivity|exact H].
 Qed.
@@ -855,8 +874,8 @@ Lemma session_next_spec c reg st tx st' :
   session_next c st = (Some tx, st') ->
   exists dropped used,
     pending st = dropped ++ used ++ pending st' /\
-    abandon (c_own c) (s_last st) (pending st) = used ++ pending st' /\
-    s_last st' = 0 /\
+    abandon (c_own c) (s_last st) (pending st) = used ++ abandon (c_own c) (s_last st') (pending st') /\
+    (s_last st' = 0 \/ s_last st' = s_last st) /\
     (pending st <> [] -> dropped ++ used <> []) /\
     nonnop (map untag (tx_packets tx)) = nonnop (map (fun p => untag (norm (c_own c) p)) used) /\
     wf_tx reg (c_own c) tx /\
@@ -868,11 +887,12 @@ Proof.
   { intros p Hsub y. cbn [tx_tags tx_packets]. split.
     - intro Hy. right. exists p. split; [left; reflexivity|exact Hy].
     - intros [Hy|[v [[Hv|[]] Hy]]]; [apply Hsub; exact Hy|subst v; exact Hy]. }
-  destruct (session_next_cases _ _ _ _ H) as [[p [Htx [Hst Hc]]]|[n0 [q [dropped [n1' [n1 [q1 [Hp [Hsplit [Hab [Hrel Hfin]]]]]]]]]]].
+  destruct (session_next_cases _ _ _ _ H) as [[p [Htx [Hst Hc]]]|[[n0 [q [dropped [n1' [n1 [q1 [Hp [Hsplit [Hab [Hrel Hfin]]]]]]]]]]|[n0 [q [Hp [Hqne [HC [Htx Hst]]]]]]]].
   - subst tx st'. change (pending (mkS [] None 0)) with (@nil packet). cbn [s_last].
+    change (abandon (c_own c) 0 []) with (@nil packet).
     destruct Hc as [[Hp Hpk]|[[n0 [Hp [Hown Hpk]]]|[n0 [q [Hp [Hab Hpk]]]]]].
     + exists [], []. rewrite Hp. cbn [app].
-      split; [reflexivity|]. split; [reflexivity|]. split; [reflexivity|]. split; [congruence|].
+      split; [reflexivity|]. split; [reflexivity|]. split; [left; reflexivity|]. split; [congruence|].
       split; [|split].
       * subst p. cbn [tx_packets map]. rewrite nonnop_cons_nop; [reflexivity|].
         rewrite is_nop_untag, is_nop_norm, is_nop_retag. reflexivity.
@@ -882,14 +902,14 @@ Proof.
         destruct (c_inter c); [intros y []|exact (fun y h => h)].
     + exists [], [n0]. rewrite Hp. cbn [app]. rewrite Hp in Hall. inversion Hall as [|? ? Hn0 _]; subst.
       split; [reflexivity|]. split.
-      { unfold abandon. rewrite Hown. reflexivity. }
-      split; [reflexivity|]. split; [congruence|]. split; [|split].
+      { cbn [abandon is_nil andb]. rewrite Hown. reflexivity. }
+      split; [left; reflexivity|]. split; [congruence|]. split; [|split].
       * cbn [tx_packets map]. rewrite retag_untag_norm. reflexivity.
       * cbn [wf_tx]. split; [apply norm_own_dev; rewrite is_own_retag; exact Hown|].
         rewrite packable_norm, packable_retag. apply Hn0.
       * apply Hsingle_tags. rewrite first_tags_spec, Hp, p_tags_norm. exact (fun y h => h).
     + exists (pending st), []. cbn [app]. rewrite app_nil_r.
-      split; [reflexivity|]. split; [exact Hab|]. split; [reflexivity|]. split; [exact (fun h => h)|].
+      split; [reflexivity|]. split; [exact Hab|]. split; [left; reflexivity|]. split; [exact (fun h => h)|].
       split; [|split].
       * subst p. reflexivity.
       * subst p. cbn [wf_tx]. split; reflexivity.
@@ -901,12 +921,22 @@ Proof.
       destruct Hrel as [Hr|Hr]; subst n1; [exact Ha|apply src_ok_retag; exact Ha]. }
     destruct (finish_spec _ reg _ _ _ _ _ Hfin Hw Hall1) as [u [kept [F1 [F2 [F3 [F4 [F5 [F6 F7]]]]]]]].
     exists dropped, (n1' :: u).
-    split; [rewrite Hsplit, F1; reflexivity|]. split; [rewrite Hab, F1; reflexivity|].
-    split; [exact F2|]. split; [intros _; destruct dropped; discriminate|].
+    split; [rewrite Hsplit, F1; reflexivity|]. split; [rewrite Hab, F1, F2, abandon_zero; reflexivity|].
+    split; [left; exact F2|]. split; [intros _; destruct dropped; discriminate|].
     split; [|split; [exact F6|]].
     + rewrite F3, nonnop_map_untag_norm, F4, <- nonnop_map_untag_norm. cbn [map].
       destruct Hrel as [Hr|Hr]; subst n1; [reflexivity|]. rewrite retag_untag_norm. reflexivity.
     + intro y. rewrite first_tags_spec, Hp. apply F7.
+  - subst tx st'. rewrite pending_mkS. cbn [optl app s_last].
+    exists [], [n0]. rewrite Hp. cbn [app]. rewrite Hp in Hall. inversion Hall as [|? ? Hn0 _]; subst.
+    apply andb_prop in HC. destruct HC as [HC1 Hown].
+    split; [reflexivity|]. split.
+    { cbn [abandon]. rewrite HC1, Hown. destruct q; [congruence|]. reflexivity. }
+    split; [right; reflexivity|]. split; [congruence|]. split; [|split].
+    + cbn [tx_packets map]. rewrite retag_untag_norm. reflexivity.
+    + cbn [wf_tx]. split; [apply norm_own_dev; rewrite is_own_retag; exact Hown|].
+      rewrite packable_norm, packable_retag. apply Hn0.
+    + apply Hsingle_tags. rewrite first_tags_spec, Hp, p_tags_norm. exact (fun y h => h).
 Qed.
 
 (* ------------------------------------------------------------------ 5. draining *)
@@ -933,6 +963,9 @@ Proof.
   intro H. exfalso.
   destruct (is_nil q && is_own (c_own c) (match c_ptags c with Some t => set_tags n0 t | None => n0 end));
     [discriminate|].
+  destruct (f_crypt (p_fl (match c_ptags c with Some t => set_tags n0 t | None => n0 end)) &&
+            is_own (c_own c) (match c_ptags c with Some t => set_tags n0 t | None => n0 end));
+    [discriminate|].
   destruct (0 <? s_last st).
   - destruct (skip_group (s_last st) _ q) as [n1 q1].
     destruct (f_group (p_fl n1) =? s_last st); [discriminate|]. apply finish_some in H. congruence.
@@ -946,8 +979,8 @@ Lemma step_spec c reg st tx st' :
   session_next c st = (Some tx, st') ->
   exists dropped used,
     pending st = dropped ++ used ++ pending st' /\
-    abandon (c_own c) (s_last st) (pending st) = used ++ pending st' /\
-    s_last st' = 0 /\
+    abandon (c_own c) (s_last st) (pending st) = used ++ abandon (c_own c) (s_last st') (pending st') /\
+    (s_last st' = 0 \/ s_last st' = s_last st) /\
     (pending st <> [] -> dropped ++ used <> []) /\
     map untag_d (fst (recv_tx reg (c_own c) tx)) = flat_map (direct (c_own c)) used /\
     (snd (recv_tx reg (c_own c) tx) = 0 \/
@@ -984,11 +1017,12 @@ Proof.
     destruct (recv_tx reg (c_own c) tx) as [d e]. cbn [fst] in H5.
     rewrite deliveries_cons. cbn [st_dlv]. rewrite map_app, H5, H2, flat_map_app. f_equal.
     destruct (pending st') as [|x r] eqn:Ep; [reflexivity|]. cbn [is_nil]. rewrite <- Ep in H1 |- *.
+    clear H3.
     assert (Hne : pending st <> []).
     { intro Hc. rewrite Hc in H1. destruct dropped; [|discriminate]. destruct used; [|discriminate].
       cbn [app] in H1. rewrite Ep in H1. discriminate. }
     rewrite IH.
-    + rewrite H3, abandon_zero. reflexivity.
+    + reflexivity.
     + pose proof (app_length_lt dropped used (pending st') (H4 Hne)) as HL. rewrite <- H1 in HL. lia.
     + rewrite H1 in Hall. apply Forall_suffix in Hall. apply Forall_suffix in Hall. exact Hall.
   - apply session_next_none in E. rewrite E. reflexivity.
@@ -1187,8 +1221,9 @@ Lemma carry_over c st tx st' k :
     exists v, first_packet tx' = Some v /\ untag v = untag (norm (c_own c) k).
 Proof.
   intros [Hi HNP] Hp H Hk.
-  destruct (session_next_cases _ _ _ _ H) as [[p [_ [Hst _]]]|[n0 [q [dropped [n1' [n1 [q1 [Hpe [Hsplit [_ [Hrel Hfin]]]]]]]]]]].
+  destruct (session_next_cases _ _ _ _ H) as [[p [_ [Hst _]]]|[[n0 [q [dropped [n1' [n1 [q1 [Hpe [Hsplit [_ [Hrel Hfin]]]]]]]]]]|[n0 [q [_ [_ [_ [_ Hst]]]]]]]].
   { subst st'. discriminate. }
+  2:{ subst st'. discriminate. }
   unfold finish in Hfin.
   destruct (next_packet (c_frag c) (c_packets c) (c_own c) (Some n1) q1 (p_tags (retag c n0))) as [[o k'] rest] eqn:EN.
   inversion Hfin; subst st'. cbn [s_peek] in Hk. subst k'. clear Hfin.
@@ -1220,6 +1255,8 @@ Proof.
   rewrite is_own_retag.
   destruct (is_nil rest && is_own (c_own c) k).
   { eexists _, _. split; [reflexivity|]. eexists. split; [reflexivity|]. apply retag_untag_norm. }
+  destruct (f_crypt (p_fl (retag c k)) && is_own (c_own c) k).
+  { eexists _, _. split; [reflexivity|]. eexists. split; [reflexivity|]. apply retag_untag_norm. }
   change (0 <? 0) with false. cbn iota.
   unfold finish.
   destruct (next_packet (c_frag c) (c_packets c) (c_own c) (Some (retag c k)) rest (p_tags (retag c k)))
@@ -1245,8 +1282,9 @@ Lemma session_next_budget c st o st' :
   sum_size (c_in o) <= c_frag c /\ len (c_in o) <= c_packets c /\ f_len (c_fl o) = len (c_in o).
 Proof.
   intros [Hi HNP] Hq H Hlen.
-  destruct (session_next_cases _ _ _ _ H) as [[p [Hc _]]|[n0 [q [dropped [n1' [n1 [q1 [Hpe [Hsplit [_ [Hrel Hfin]]]]]]]]]]].
+  destruct (session_next_cases _ _ _ _ H) as [[p [Hc _]]|[[n0 [q [dropped [n1' [n1 [q1 [Hpe [Hsplit [_ [Hrel Hfin]]]]]]]]]]|[n0 [q [_ [_ [_ [Hc _]]]]]]]].
   { discriminate. }
+  2:{ discriminate. }
   assert (Hsuf : Forall (fun p => packable p = true /\ 0 <= p_len p) (n1' :: q1)).
   { rewrite Hsplit in Hq. apply Forall_suffix in Hq. rewrite Forall_forall in *. intros x Hx.
     split; [apply queueable_packable|apply queueable_len]; apply Hq; exact Hx. }
@@ -1296,6 +1334,17 @@ Proof.
   cbn [andb]. apply IH. exact Hr.
 Qed.
 
+Lemma flags_eqb_crypt a b : flags_eqb a b = true -> f_crypt a = f_crypt b.
+Proof.
+  unfold flags_eqb. intro H. repeat (apply andb_prop in H; destruct H as [H ?]). apply eqb_prop. assumption.
+Qed.
+
+Lemma nop_not_crypt p : is_nop p = true -> f_crypt (p_fl p) = false.
+Proof.
+  unfold is_nop. intro H. apply andb_prop in H. destruct H as [_ H]. apply orb_prop in H.
+  destruct H as [H|H]; apply flags_eqb_crypt in H; exact H.
+Qed.
+
 Lemma all_nop_rejected c reg q :
   wf_conf c -> 2 <= c_packets c -> (2 <= length q)%nat -> Forall (fun p => own_nop (c_own c) p = true) q ->
   exists o st', session_next c (mkS q None 0) = (Some (TMulti o), st') /\
@@ -1305,7 +1354,11 @@ Proof.
   destruct q as [|n0 [|p r]]; cbn [length] in Hl; try lia.
   unfold session_next, pick. cbn [s_peek s_q s_last].
   change (match c_ptags c with Some t => set_tags n0 t | None => n0 end) with (retag c n0).
-  cbn [is_nil andb]. change (0 <? 0) with false. cbn iota.
+  cbn [is_nil andb].
+  assert (Hcr : f_crypt (p_fl (retag c n0)) = false).
+  { rewrite p_fl_retag. inversion Hall as [|? ? Ha _]; subst. unfold own_nop in Ha. apply andb_prop in Ha.
+    apply nop_not_crypt. apply Ha. }
+  rewrite Hcr. cbn [andb]. change (0 <? 0) with false. cbn iota.
   unfold finish, next_packet. replace (c_packets c <=? 1) with false by lia. cbn [is_nil orb].
   rewrite np_loop_all_nop.
   2:{ inversion Hall as [|? ? Ha Hb]; subst. constructor; [|exact Hb].
@@ -1356,8 +1409,7 @@ Proof.
   assert (Hq' : Forall (fun p => queueable p = true) q).
   { rewrite Forall_forall in *. intros p Hp. apply (Hq p Hp). }
   rewrite (drain_delivers_queue c reg last q Hw Hq' Hr).
-  destruct (abandon_suffix (c_own c) last q) as [d Hd].
-  apply flat_map_direct_plain; [apply Hw|]. rewrite Hd in Hq. apply Forall_suffix in Hq. exact Hq.
+  apply flat_map_direct_plain; [apply Hw|]. apply abandon_Forall. exact Hq.
 Qed.
 
 Lemma drain_terminates c reg lg q :
